@@ -730,6 +730,18 @@ func corpus() []*Session {
 			cn("f", li(1)), cn("g", li(1)), asg("x", li(2)), cn("f", li(1)), cn("g", li(1)), asg("X", li(6)), cn("g", li(1)),
 			asg("h", s.fn("", []string{"n"}, seq(asg("t", add(v("n"), li(1))), add(v("t"), v("t"))))), cn("h", li(1)), cn("h", li(1))}
 	})
+	// two closures of one maker calling each other: "same function" means same closure, not same text
+	mk("mech:closure-calls-sibling", func(s *Session) {
+		s.Inputs = []*Expr{s.fn("mk", []string{"p", "F"}, s.fn("", nil, add(cn("F"), v("p")))), asg("a", cn("mk", li(1), s.fn("", nil, li(0)))),
+			asg("b", cn("mk", li(2), v("a"))), cn("b"), cn("a"), cn("b")}
+	})
+	// a condition and an argument that are References to outer variables; a function-valued argument
+	mk("mech:references", func(s *Session) {
+		s.Inputs = []*Expr{asg("y", lit(Val{K: 'b', B: true})), asg("x", li(3)), asg("X", li(4)), asg("id", s.fn("", []string{"p"}, seq(lg("I"), v("p")))),
+			asg("f", s.fn("", []string{"n"}, iff(v("y"), cn("id", v("x")), cn("id", v("n"))))), cn("f", li(1)), cn("f", li(1)),
+			asg("g", s.fn("", []string{"n"}, add(cn("id", v("X")), cn("id", v("n"))))), cn("g", li(1)), cn("g", li(1)), cn("id", li(4)), cn("id", li(3)),
+			asg("h", s.fn("", []string{"F", "n"}, cn("F", v("n")))), cn("h", v("id"), li(7)), cn("h", v("id"), li(7)), cn("id", li(7))}
+	})
 	mk("mech:del-in-function", func(s *Session) {
 		s.Inputs = []*Expr{asg("y", li(1)), asg("f", s.fn("", []string{"n"}, add(v("n"), li(1)))), cn("f", li(1)), asg("d", s.fn("", nil, del("y"))),
 			asg("w", s.fn("", nil, seq(cn("d"), li(7)))), cn("w"), cn("w"), cn("f", li(1)), v("y")}
